@@ -16,7 +16,7 @@ import (
 
 func TestVerif_C09(t *testing.T) {
 	rep := vk.NewReport(t, "C09", "exploration")
-	rep.Rule = "NewMergeHandler over 2-5 (one session in twelve: 6-25) scripted children that answer every EVENT with one OK and every COUNT with one COUNT after seeded delays (out of order across different ids, in submission order for the same id); verdicts, reasons (with and without machine-readable prefixes; in one session in five oddly shaped: a bare prefix, leading/trailing white space, empty), counts and the optional approximate member are a seeded function of (child, id, occurrence) and every reason names (child, occurrence), so a reply identifies the submission it answers; the client pipelines 1-8 requests over tiny id alphabets (the same event id / COUNT id several times in flight, CLOSE messages for the same ids in between); offline: #OK(id) = #EVENT(id), accepted OKs = all-accept submissions, each rejecting OK begins with the full reason of a rejecting child of a distinct submission that is the lowest-index or the earliest-replying rejecter; #COUNT(id) = #requests and the multiset of values = per-request maxima; non-trivial = a session with a repeated id in flight or mixed verdicts; distinct = distinct (children, request shape, verdict pattern)"
+	rep.Rule = "NewMergeHandler over 2-5 (one session in twelve: 6-25, sometimes 60-74) scripted children that answer every EVENT with one OK and every COUNT with one COUNT after seeded delays (out of order across different ids, in submission order for the same id); verdicts, reasons (with and without machine-readable prefixes; in one session in five oddly shaped: a bare prefix, leading/trailing white space, empty), counts and the optional approximate member are a seeded function of (child, id, occurrence) and every reason names (child, occurrence), so a reply identifies the submission it answers; the client pipelines 1-8 requests over tiny id alphabets (the same event id / COUNT id several times in flight, CLOSE messages and REQs (which every child refuses with CLOSED) for the same ids in between); offline: #OK(id) = #EVENT(id), accepted OKs = all-accept submissions, each rejecting OK begins with the full reason of a rejecting child of a distinct submission that is the lowest-index or the earliest-replying rejecter; #COUNT(id) = #requests and the multiset of values = per-request maxima; non-trivial = a session with a repeated id in flight or mixed verdicts; distinct = distinct (children, request shape, verdict pattern)"
 	defer rep.Finish()
 	pc := &pointCtl{sleep: true, only: "merge."}
 	mocrelay.SetVerifPoint(pc.fn)
@@ -32,9 +32,13 @@ func TestVerif_C09(t *testing.T) {
 		nch := 2 + r.IntN(4)
 		if r.IntN(12) == 0 { // a wide merge (the statement is for any number of children)
 			nch = 6 + r.IntN(20)
+			if r.IntN(4) == 0 {
+				nch = 60 + r.IntN(15)
+			}
 			rep.Count("sessions_with_6_to_25_children", 1)
 		}
 		w := newMWorld()
+		w.closeUnknownReq = true
 		salt := r.Uint64()
 		mode := r.IntN(5) // 0: mostly accept, 1: mixed, 2: reject repeats (duplicate), 3: mostly reject, 4: oddly shaped reasons (every id submitted once)
 		h64 := func(child int, id string, k int) uint64 {
@@ -179,6 +183,13 @@ func TestVerif_C09(t *testing.T) {
 				}
 			default:
 				s := vk.Pick(r, subs)
+				if r.IntN(2) == 0 {
+					// a REQ on an id that COUNTs use too: every child refuses it with CLOSED
+					log = append(log, "> REQ "+s)
+					shape += "r"
+					cl.s.Put(&mocrelay.ClientReqMsg{SubscriptionID: s, ReqFilters: []*mocrelay.ReqFilter{{}}})
+					break
+				}
 				log = append(log, "> CLOSE "+s)
 				shape += "x"
 				cl.s.Put(&mocrelay.ClientCloseMsg{SubscriptionID: s})
